@@ -68,6 +68,33 @@ def violRequests (cfg : Cfg) (t0 : Time) (dt : Nat) (picks : List (List RequestI
     (if present == expPresent then [] else
       [s!"C11/presence| request {i}: present after the pre-step phase of steps {present}, the statement requires {expPresent}"])
 
+/-- C03 on the observed run, whatever the order of the file: a request that was admitted (an add
+    event) is admitted once, is cancelled at most once, never both picked up and cancelled, and is
+    present after every pre-step phase from its admission until it is picked up or cancelled -
+    it does not vanish, and it does not come back -/
+def violResolved (picks : List (List RequestId)) (obs : List StepObs) : List String :=
+  let n := obs.length
+  let ids := (obs.flatMap (·.adds)).eraseDups
+  ids.flatMap fun i =>
+    let added := stepsWhere obs (·.adds) i
+    let cancelled := stepsWhere obs (·.cancels) i
+    let kp := pickStep picks i
+    match added with
+    | [] => []
+    | a :: more =>
+      (if more.isEmpty then [] else [s!"C03/admitted-twice| request {i} has add events in steps {added}"]) ++
+      (if cancelled.length ≤ 1 then [] else [s!"C03/cancelled-twice| request {i} has cancel events in steps {cancelled}"]) ++
+      (match kp, cancelled with
+       | some p, c :: _ => [s!"C03/both| request {i} was picked up in step {p} and has a cancel event in step {c}"]
+       | _, _ => []) ++
+      ((List.range n).filter (fun k => a ≤ k)).flatMap fun k =>
+        let here := (obs.getD k default).present.contains i
+        let gone := cancelled.any (fun c => c ≤ k) || (match kp with | some p => p < k | none => false)
+        if here && gone then [s!"C03/resurfaced| request {i} is present after the pre-step phase of step {k} although it was resolved before"]
+        else if !here && !gone then
+          [s!"C03/vanished| request {i}, admitted in step {a}, is absent after the pre-step phase of step {k} without a pickup or a cancel event"]
+        else []
+
 /-- the price rows that take effect in step `k` -/
 def windowOf (t0 : Time) (dt n : Nat) (rows : List PriceRow) (k : Nat) : List PriceRow :=
   rows.filter fun r => firstAfter t0 dt n r.time == some k
